@@ -346,7 +346,9 @@ func wildWalk(rest, path Expr, nodes []any, cb func(path Expr, nodes []any), f F
 			path[len(path)-1] = Nth(i)
 			nodes[len(nodes)-1] = v
 			if 0 < len(rest) {
-				rest[0].Walk(rest[1:], path, nodes, cb)
+				if f == nil { // a descent applies rest when it walks the child
+					rest[0].Walk(rest[1:], path, nodes, cb)
+				}
 			} else {
 				cb(path, nodes)
 			}
@@ -366,7 +368,9 @@ func wildWalk(rest, path Expr, nodes []any, cb func(path Expr, nodes []any), f F
 				path[len(path)-1] = Child(k)
 				nodes[len(nodes)-1] = v
 				if 0 < len(rest) {
-					rest[0].Walk(rest[1:], path, nodes, cb)
+					if f == nil { // a descent applies rest when it walks the child
+						rest[0].Walk(rest[1:], path, nodes, cb)
+					}
 				} else {
 					cb(path, nodes)
 				}
@@ -380,7 +384,9 @@ func wildWalk(rest, path Expr, nodes []any, cb func(path Expr, nodes []any), f F
 			path[len(path)-1] = Nth(i)
 			nodes[len(nodes)-1] = v
 			if 0 < len(rest) {
-				rest[0].Walk(rest[1:], path, nodes, cb)
+				if f == nil { // a descent applies rest when it walks the child
+					rest[0].Walk(rest[1:], path, nodes, cb)
+				}
 			} else {
 				cb(path, nodes)
 			}
@@ -400,7 +406,9 @@ func wildWalk(rest, path Expr, nodes []any, cb func(path Expr, nodes []any), f F
 				path[len(path)-1] = Child(k)
 				nodes[len(nodes)-1] = v
 				if 0 < len(rest) {
-					rest[0].Walk(rest[1:], path, nodes, cb)
+					if f == nil { // a descent applies rest when it walks the child
+						rest[0].Walk(rest[1:], path, nodes, cb)
+					}
 				} else {
 					cb(path, nodes)
 				}
@@ -414,7 +422,9 @@ func wildWalk(rest, path Expr, nodes []any, cb func(path Expr, nodes []any), f F
 			path[len(path)-1] = Nth(i)
 			nodes[len(nodes)-1] = tv.ValueAtIndex(i)
 			if 0 < len(rest) {
-				rest[0].Walk(rest[1:], path, nodes, cb)
+				if f == nil { // a descent applies rest when it walks the child
+					rest[0].Walk(rest[1:], path, nodes, cb)
+				}
 			} else {
 				cb(path, nodes)
 			}
@@ -429,7 +439,9 @@ func wildWalk(rest, path Expr, nodes []any, cb func(path Expr, nodes []any), f F
 			path[len(path)-1] = Child(k)
 			nodes[len(nodes)-1], _ = tv.ValueForKey(k)
 			if 0 < len(rest) {
-				rest[0].Walk(rest[1:], path, nodes, cb)
+				if f == nil { // a descent applies rest when it walks the child
+					rest[0].Walk(rest[1:], path, nodes, cb)
+				}
 			} else {
 				cb(path, nodes)
 			}
@@ -457,7 +469,9 @@ func wildWalk(rest, path Expr, nodes []any, cb func(path Expr, nodes []any), f F
 						path[len(path)-1] = Child(rt.Field(i).Name)
 						nodes[len(nodes)-1] = rv.Interface()
 						if 0 < len(rest) {
-							rest[0].Walk(rest[1:], path, nodes, cb)
+							if f == nil { // a descent applies rest when it walks the child
+								rest[0].Walk(rest[1:], path, nodes, cb)
+							}
 						} else {
 							cb(path, nodes)
 						}
@@ -474,7 +488,9 @@ func wildWalk(rest, path Expr, nodes []any, cb func(path Expr, nodes []any), f F
 						path[len(path)-1] = Nth(i)
 						nodes[len(nodes)-1] = rv.Interface()
 						if 0 < len(rest) {
-							rest[0].Walk(rest[1:], path, nodes, cb)
+							if f == nil { // a descent applies rest when it walks the child
+								rest[0].Walk(rest[1:], path, nodes, cb)
+							}
 						} else {
 							cb(path, nodes)
 						}
@@ -494,7 +510,9 @@ func wildWalk(rest, path Expr, nodes []any, cb func(path Expr, nodes []any), f F
 						path[len(path)-1] = Child(kv.String())
 						nodes[len(nodes)-1] = rv.Interface()
 						if 0 < len(rest) {
-							rest[0].Walk(rest[1:], path, nodes, cb)
+							if f == nil { // a descent applies rest when it walks the child
+								rest[0].Walk(rest[1:], path, nodes, cb)
+							}
 						} else {
 							cb(path, nodes)
 						}
